@@ -265,16 +265,35 @@ Proof.
   destruct H as [<-|H]; [lia|]. specialize (max_len_ge es e H). lia.
 Qed.
 
-Lemma dedup_NoDup (es seen : list ent) :
-  NoDup (map fst es) -> (forall e, In e es -> has_entry_key (fst e) seen = false) ->
-  dedup_keys es seen = es.
+Lemma ins_entry_perm (x : ent) rl : Permutation (ins_entry x rl) (x :: rl).
 Proof.
-  revert seen; induction es as [|e es IH]; intros seen ND Hs; simpl; [reflexivity|].
-  rewrite (Hs e (or_introl eq_refl)). f_equal. inversion ND; subst. apply IH; auto.
-  intros e' He'. simpl. rewrite (Hs e' (or_intror He')).
-  destruct (bits_eqb (fst e) (fst e')) eqn:Eb; [|reflexivity].
-  exfalso. apply bits_eqb_eq in Eb. apply H1. rewrite Eb. apply in_map. exact He'.
+  induction rl as [|y rl IH]; simpl; [apply Permutation_refl|].
+  destruct (key_compare (fst x) (fst y)); try apply Permutation_refl.
+  eapply Permutation_trans; [apply perm_skip; exact IH|apply perm_swap].
 Qed.
+
+Lemma sort_entries_perm (es : list ent) : Permutation (sort_entries es) es.
+Proof.
+  unfold sort_entries. eapply Permutation_trans; [apply Permutation_sym; apply Permutation_rev|].
+  assert (G : forall rl, Permutation (fold_left (fun rl x => ins_entry x rl) es rl) (es ++ rl)).
+  { induction es as [|a es IH]; intro rl; simpl; [apply Permutation_refl|].
+    eapply Permutation_trans; [apply IH|]. eapply Permutation_trans; [apply Permutation_app_head; apply ins_entry_perm|].
+    apply Permutation_sym. apply Permutation_middle. }
+  specialize (G []). rewrite app_nil_r in G. exact G.
+Qed.
+
+Lemma dedup_after_id prev (es : list ent) :
+  NoDup (prev :: map fst es) -> dedup_after prev es = es.
+Proof.
+  revert prev; induction es as [|e es IH]; intros prev ND; [reflexivity|].
+  cbn [dedup_after]. cbn [map] in ND. inversion ND as [|? ? H1 H2]; subst.
+  destruct (bits_eqb (fst e) prev) eqn:Eb.
+  - exfalso. apply bits_eqb_eq in Eb. apply H1. left. exact Eb.
+  - f_equal. apply IH. exact H2.
+Qed.
+
+Lemma dedup_adjacent_id (es : list ent) : NoDup (map fst es) -> dedup_adjacent es = es.
+Proof. destruct es as [|e es]; simpl; intro ND; [reflexivity|]. f_equal. apply dedup_after_id. exact ND. Qed.
 
 (* AddMany of entries with distinct keys, pairwise non-comparable among themselves and with the
    keys present: no panic, the trie stays well formed and gains exactly the new entries *)
@@ -282,10 +301,19 @@ Lemma add_all_spec (t : trie D) (es : list ent) :
   wf t -> NoDup (map fst es) -> compat (map fst es ++ keys_of t) ->
   exists t', add_all t es = Ok t' /\ wf t' /\ added es t t'.
 Proof.
-  intros Hw ND Cp. unfold add_all, add_many. rewrite dedup_NoDup; auto.
-  destruct (add_many_at_spec (S (max_len es)) 0 es t [] Hw eq_refl) as [t' [n [E1 [W A]]]]; auto.
-  - intros e He. pose proof (max_len_ge es e He). lia.
-  - exists t'. rewrite E1. simpl. auto.
+  intros Hw ND Cp. unfold add_all, add_many.
+  pose proof (sort_entries_perm es) as P.
+  assert (ND' : NoDup (map fst (sort_entries es))).
+  { eapply Permutation_NoDup; [apply Permutation_map; apply Permutation_sym; exact P|exact ND]. }
+  rewrite dedup_adjacent_id by exact ND'.
+  destruct (add_many_at_spec (S (max_len es)) 0 (sort_entries es) t [] Hw eq_refl) as [t' [n [E1 [W A]]]]; auto.
+  - eapply compat_incl; [|exact Cp]. intros x Hx. apply in_app_or in Hx as [Hx|Hx]; apply in_or_app; [left|right; exact Hx].
+    apply in_map_iff in Hx as [e [<- He]]. apply in_map. eapply Permutation_in; eauto.
+  - intros e He. assert (In e es) by (eapply Permutation_in; eauto). pose proof (max_len_ge es e H). lia.
+  - exists t'. rewrite E1. simpl. split; [reflexivity|]. split; [exact W|].
+    intro e. rewrite (A e). split.
+    + intros [H|[H1 H2]]; [left; exact H|right]. split; [eapply Permutation_in; eauto|exact H2].
+    + intros [H|[H1 H2]]; [left; exact H|right]. split; [eapply Permutation_in; [apply Permutation_sym; exact P|exact H1]|exact H2].
 Qed.
 
 (* Add of a key non-comparable with the keys present (or already present) *)
